@@ -76,6 +76,8 @@ type obs struct {
 	Results []string                     `json:"results"`
 	// per CID that had expired: how many unpins the StateSync rounds issued for it
 	ExpUnpins map[string]int `json:"expunpins"`
+	// peers whose daemon had an outage during the run
+	Outage []string `json:"outage"`
 }
 
 type node struct {
@@ -304,7 +306,7 @@ func runScript(t *testing.T, sc *script, seed int64) (*obs, error) {
 		}
 		return false, nil
 	}
-	o := &obs{Script: sc.ID, Ps: map[string]pinView{}, Ipfs: map[string]map[string]string{}, ExpUnpins: map[string]int{}}
+	o := &obs{Script: sc.ID, Outage: []string{}, Ps: map[string]pinView{}, Ipfs: map[string]map[string]string{}, ExpUnpins: map[string]int{}}
 	var lastExpiry time.Time
 	stateSyncRound := func() {
 		if d := time.Until(lastExpiry); d > 0 {
@@ -364,6 +366,7 @@ func runScript(t *testing.T, sc *script, seed int64) (*obs, error) {
 			o.Results = append(o.Results, "StateSyncAll")
 		case "IpfsDown":
 			nodes[a.P].gw.set(true)
+			o.Outage = append(o.Outage, a.P)
 			o.Results = append(o.Results, "IpfsDown("+a.P+")")
 		case "IpfsHeal":
 			nodes[a.P].gw.set(false)
